@@ -789,3 +789,63 @@ def shrink_pipe(case):
         yield dict(case, ins=[dict(inp, s=s[:j] + s[j + 1:])])
     if inp.get("lo", 0) != 0 or inp.get("hi") not in (0, None):
         yield dict(case, ins=[dict(inp, lo=0, hi=0)])
+
+
+# ---- a binary combinator over two pipelines
+BTOP = {"zip": "BZip", "chain": "BChain", "zip_longest": "BZipLongest", "cross_singleton": "BCross"}
+
+
+def rand_stages(rng, lo, hi):
+    stages = []
+    for _ in range(rng.range(lo, hi)):
+        op = rng.choice(sorted(STAGES))
+        st = {"op": op}
+        kind = STAGES[op]
+        if kind == "n":
+            st["n"] = rng.below(5)
+        elif kind:
+            st["fn"] = rng.choice(VOCAB[kind])
+        stages.append(st)
+    return stages
+
+
+def rand_bpipe(rng):
+    pend = rng.choice([0, 2, 4])
+    return {"k": "c11p", "bin": rng.choice(sorted(BTOP)), "extra": rng.range(1, 3),
+            "stages": rand_stages(rng, 0, 2), "stages_b": rand_stages(rng, 0, 2),
+            "ins": [rand_input(rng, rng.choice([4, 7]), pend, rng.chance(2, 3)) for _ in range(2)]}
+
+
+def _horizon(stages, script, trace_len):
+    nflat = sum(1 for s in stages if s["op"] == "flat_map")
+    return 24 + trace_len + 4 * len(script) * (3 ** nflat)
+
+
+def c11b_term(case, res):
+    if "trace" not in res:
+        return 3
+    sa, sb = list(case["stages"]), list(case["stages_b"])
+    # FusedPull inputs are obtained with fuse() in the harness
+    if case["bin"] in ("chain", "zip_longest"):
+        sa = sa + [{"op": "fuse"}]
+    if case["bin"] == "zip_longest":
+        sb = sb + [{"op": "fuse"}]
+    h = max(_horizon(sa, case["ins"][0]["s"], len(res["trace"])),
+            _horizon(sb, case["ins"][1]["s"], len(res["trace"])))
+    bc = "(BCase %d [%s] %s [%s] %s %s)" % (h, "; ".join(g_stage(s) for s in sa), g_src(case["ins"][0]),
+                                            "; ".join(g_stage(s) for s in sb), g_src(case["ins"][1]),
+                                            BTOP[case["bin"]])
+    return "bchk %s %s" % (bc, g_trace(res["trace"]))
+
+
+def shrink_bpipe(case):
+    for key in ("stages", "stages_b"):
+        for i in range(len(case[key])):
+            yield dict(case, **{key: case[key][:i] + case[key][i + 1:]})
+    ins = case["ins"]
+    for i, inp in enumerate(ins):
+        s = inp["s"]
+        for j in range(len(s)):
+            yield dict(case, ins=ins[:i] + [dict(inp, s=s[:j] + s[j + 1:])] + ins[i + 1:])
+        if inp.get("lo", 0) != 0 or inp.get("hi") not in (0, None):
+            yield dict(case, ins=ins[:i] + [dict(inp, lo=0, hi=0)] + ins[i + 1:])
